@@ -139,6 +139,28 @@ func (Engine) Execute(planJSON json.RawMessage, scratch string) (res sim.RunResu
 		s.shutdown()
 	}()
 	res.Steps = s.steps
+	c := res.Counters
+	switch p.Prop {
+	case "C07":
+		res.NonTriv = c["c07_merge_checks"] > 0
+	case "C10":
+		res.NonTriv = c["c10_stable_checks"] > 0 && (c["probe_view_opened_during_jobs"] > 0 || c["probe_view_held_across_merge"] > 0)
+	case "C11":
+		res.NonTriv = c["c11_rejected_unchanged"] > 0 && c["c11_accepted_applied"] > 0
+	case "C13":
+		res.NonTriv = c["probe_view_held_across_merge"] > 0 || c["probe_view_opened_during_jobs"] > 0
+	case "C16":
+		res.NonTriv = c["probe_convert_applied"] > 0 || c["probe_on_demand_conversion"] > 0
+	case "C09":
+		res.NonTriv = s.drainN > 0 && res.NonTriv
+	}
+	if ents, err := os.ReadDir(vdir); err == nil {
+		for _, e := range ents {
+			if strings.HasPrefix(e.Name(), "fail-") {
+				res.Count("fault_converter_transient_failure", 1)
+			}
+		}
+	}
 	res.SimTimeS = simrt.Elapsed().Seconds()
 	res.SchedSig = sim.Hash(abstractSteps(s.steps, &p))
 	res.Count("io_points", int64(simrt.IOCount()))
